@@ -16,6 +16,14 @@ CHECKS = {
           "arithmetic mod 2^(8 len); the asm paths are proved equal to the generic loop. The model is tied to the code by running both on the same generated op lines "
           "(all lengths 0..130, every one-bit difference, every carry-chain length, exhaustive 1-byte and sampled/exhaustive 2-byte operands) in native and portable builds."),
     note=NOTE_COMMON + "inline assembly is transcribed by hand into add-with-carry chains; explicit_bzero is an external call."),
+ "C16": dict(
+    category="proof", design_ref="DESIGN.md §3.16",
+    technique="Lean 4 theorems (loop invariants over the mask/barrier loops, full functional specification of pad and unpad, round-trip) + differential correspondence",
+    text=("sodium_pad and sodium_unpad are modelled with 64-bit size_t arithmetic and C's mixed-width conversions; Lean proves for every buffer, length, block size and capacity "
+          "(cap <= 2^56) that pad returns exactly data || 0x80 || 0^k with the minimal k reaching a positive multiple of the block size, fails without writing when it does not fit, "
+          "misuses on SIZE_MAX overflow, touches only in-bounds indices; that unpad succeeds iff the final block ends in 0x80 0*, reads only the final block, and inverts pad. "
+          "The model is tied to the code by running both on the same op lines (lengths 0..300 x block sizes 1..130 and powers of two x capacities, exhaustive small final blocks)."),
+    note=NOTE_COMMON + "hypothesis cap <= 2^56 stated in the theorem (DESIGN §4-O2)."),
 }
 
 NOT_YET = {}
